@@ -385,9 +385,40 @@ fn serialize(c: &Case, quads: &[MQ]) -> Result<Result<String, String>, String> {
     let ds: Vec<Spog<SimpleTerm<'static>>> = quads.iter().map(MQ::to_spog).collect();
     catch(|| {
         let mut ser = JsonLdSerializer::new_with_options(Vec::<u8>::new(), options(c));
-        match ser.serialize_dataset(&ds) {
-            Ok(s) => Ok(s.to_string()),
-            Err(e) => Err(format!("{e}")),
+        let txt = match ser.serialize_dataset(&ds) {
+            Ok(s) => s.to_string(),
+            Err(e) => return Err(format!("{e}")),
+        };
+        // the document must not depend on the writer: one that accepts only what fits in its current
+        // block of 17 bytes (short writes, as the io::Write contract allows) must receive the same bytes
+        struct Block(std::rc::Rc<std::cell::RefCell<Vec<u8>>>);
+        impl std::io::Write for Block {
+            fn write(&mut self, b: &[u8]) -> std::io::Result<usize> {
+                let mut v = self.0.borrow_mut();
+                let n = b.len().min(17 - v.len() % 17);
+                v.extend_from_slice(&b[..n]);
+                Ok(n)
+            }
+            fn flush(&mut self) -> std::io::Result<()> {
+                Ok(())
+            }
+        }
+        let sink = std::rc::Rc::new(std::cell::RefCell::new(vec![]));
+        let mut ser2 = JsonLdSerializer::new_with_options(Block(sink.clone()), options(c));
+        let r2 = ser2.serialize_dataset(&ds).map(|_| ());
+        drop(ser2);
+        let got = sink.borrow().clone();
+        // (two runs of the serializer may order object members differently: compare the bytes as multisets)
+        let same = {
+            let (mut a, mut b) = (got.clone(), txt.as_bytes().to_vec());
+            a.sort_unstable();
+            b.sort_unstable();
+            a == b
+        };
+        match r2 {
+            Ok(()) if same => Ok(txt),
+            Ok(()) => Err(format!("WRITER: serialize_dataset returned Ok but a writer doing short writes received {} of {} bytes", got.len(), txt.len())),
+            Err(e) => Err(format!("WRITER: serialising to a writer doing short writes fails ({e}) although a Vec works")),
         }
     })
 }
@@ -603,6 +634,11 @@ fn run(case: &Case, ctx: &mut Ctx) {
         Err(p) => {
             let sig = if ana.seed_without_parent() { "jsonld/list-seed-without-parent".to_string() } else { format!("jsonld/panic-serialize/{}", generic()) };
             fail(ctx, sig, format!("serializer panicked: {p}"), None, None);
+            return;
+        }
+        Ok(Err(e)) if e.starts_with("WRITER:") => {
+            // keyed on the trigger (how the writer accepts bytes), whatever the dataset
+            fail(ctx, "jsonld/output-depends-on-writer".to_string(), e, None, None);
             return;
         }
         Ok(Err(e)) => {
